@@ -2,27 +2,34 @@
 
 Spec: spec/Parallel.tla - the shared state (lock directory and its ethertype files, temporary
 directories, the pinned `programs` file, the attached dispatcher and its table, the mailbox lock
-file, the FMMU bitmap and its lockf holder), per participant what it believes (phase, installing,
-ethertype, FMMU window, table handle), the four property invariants (OneInstaller, DispatcherUp,
-EthDistinct, WindowsDistinct) and a model of the protocol of ParallelEtherCat.run / LockFile /
-FMMULock, one step per system call in the order the code performs them, optional crash.
+file, the FMMU bitmap and its lockf holder, the holder of the interface mutex), per participant
+what it believes (phase, installing, ethertype, FMMU window, table handle), the four property
+invariants (OneInstaller, DispatcherUp, EthDistinct, WindowsDistinct) and a model of the protocol
+of ParallelEtherCat.run / LockFile / FMMULock, one step per system call in the order the code
+performs them, optional crash.  Switches: Mutex (start and stop block under interface_lock()),
+LockedInit (the bitmap's creator allocates under the lock), Bare (FMMULock on its own).
+NEW = the repaired protocol (Mutex, LockedInit); OLD = the protocols before the repairs, kept as
+adversaries.
 
-Binding
- * TLC explores all interleavings of the protocol model for 2 participants (3: at most 2
-   preemptions in quick, all in thorough) and reports, breadth first, the shortest interleaving for
-   every class <<violated invariants, last step, phase of its participant>> (MC_Parallel: CutSpec /
-   NewClass);
- * TLC enumerates every behaviour with at most k preemptions (ParallelScripts, 2 participants,
-   also with one crash) and random behaviours (-simulate, 3 participants);
- * every such schedule is replayed on the REAL ParallelEtherCat.run() / LockFile / FMMULock in one
-   real OS process per participant, one gated system call at a time (harness/parworker: private
-   directory for /run/lock, /run/ebpf, /sys/fs/bpf; recorders for the bpf / XDP calls; crash =
-   SIGKILL), then all participants run to their end;
- * THE VERDICT: TLC binds the state to what was observed after every call and evaluates the four
-   invariants on it (ParallelTrace: VSpec / Observe);
- * model conformance (ParallelTrace: CSpec): every observed step must be the step the protocol
-   model predicts, with the same successor state - evidence that TLC's interleavings are those of
-   the real code; reported, not a verdict (a repaired protocol legitimately differs).
+ 1 DESIGN VERIFICATION  TLC checks the four invariants on the NEW protocol exhaustively: 2
+   participants, all interleavings, with and without a crash; 3 participants, all interleavings
+   (with a crash: thorough); the bare FMMULock protocol with 3 participants and a crash.  Also:
+   Mutex with the OLD bitmap initialisation satisfies the invariants (that regression is invisible
+   through run(), hence the bare part).
+ 2 SCHEDULES  (a) in the OLD protocols TLC reports, breadth first, the shortest violating
+   interleaving per class <<violated invariants, last step, phase>> and every violating behaviour
+   with few preemptions - the windows a regression would reopen; (b) every behaviour of the NEW
+   protocol with at most k preemptions (also with one crash), random NEW behaviours (-simulate),
+   seeded random interleavings; the same for the bare FMMULock protocol.
+ 3 REPLAY  every schedule runs on the REAL ParallelEtherCat.run() / LockFile / FMMULock (bare
+   part: the real FMMULock(path) ... remove()) in one real OS process per participant, one gated
+   system call at a time (harness/parworker; crash = SIGKILL).  A participant that would wait in
+   flock / lockf reports "blocked" and the controller moves on with the schedule (no timeouts);
+   calls the schedule does not know are passed on the way to the call it names.
+ 4 VERDICT  TLC binds the state to what was observed after every call and evaluates the invariants
+   on it (ParallelTrace: VSpec / Observe).
+ 5 CONFORMANCE  (ParallelTrace: CSpec, NEW protocol) every observed step must be the step the
+   model predicts with the same successor state; reported as a percentage, not a verdict.
 """
 import json
 import os
@@ -39,7 +46,16 @@ CONSTS = {2: dict(reth="{12289}", addrs="{1, 2}"),
           3: dict(reth="{12289, 12290}", addrs="{1, 2, 3}")}
 
 
-def cfg_text(spec, nprocs, crash, pre, body, addrs=None):
+NEW = dict(name="new", mutex=True, locked=True, bare=False)
+OLD = dict(name="old", mutex=False, locked=False, bare=False)
+NOMUTEX = dict(name="no-mutex", mutex=False, locked=True, bare=False)
+OLDINIT = dict(name="mutex+old-init", mutex=True, locked=False, bare=False)
+BARE_NEW = dict(name="bare-new", mutex=False, locked=True, bare=True)
+BARE_OLD = dict(name="bare-old", mutex=False, locked=False, bare=True)
+TF = {True: "TRUE", False: "FALSE"}
+
+
+def cfg_text(spec, proto, nprocs, crash, pre, body, addrs=None):
     k = CONSTS[nprocs]
     procs = ", ".join('"p%d"' % i for i in range(1, nprocs + 1))
     return f"""SPECIFICATION {spec}
@@ -48,24 +64,39 @@ CONSTANTS Procs = {{{procs}}}
           Addrs = {addrs or k['addrs']}
           MaxCrash = {crash}
           MaxPre {'<- Unbounded' if pre is None else '= %d' % pre}
+          Mutex = {TF[proto['mutex']]}
+          LockedInit = {TF[proto['locked']]}
+          Bare = {TF[proto['bare']]}
 {body}
 CHECK_DEADLOCK FALSE
 """
 
 
-def label(nprocs, crash, pre):
-    return f"{nprocs}p" + ("+crash" if crash else "") + ("" if pre is None else f"/pre{pre}")
+def label(proto, nprocs, crash, pre):
+    return f"{proto['name']} {nprocs}p" + ("+crash" if crash else "") + ("" if pre is None else f"/pre{pre}")
+
+
+def mode_of(proto):
+    return "fmmu" if proto["bare"] else "run"
+
+
+def depth_of(res):
+    m = re.findall(r"depth of the complete state graph search is (\d+)", res.out)
+    return int(m[-1]) if m else 0
 
 
 # ---- TLC runs -----------------------------------------------------------------------------
-def tlc_mc_full(ctx, nprocs, crash, pre):
-    """the whole protocol model, with its structural invariants"""
+def tlc_mc(ctx, proto, nprocs, crash, pre, design, workers=4):
+    """the whole protocol model with its structural invariants; design: also the property"""
     wd = ctx.workdir()
-    T.write_cfg(wd, "mc.cfg", cfg_text("PSpec", nprocs, crash, pre, "INVARIANTS TypeOK LockSound"))
-    res = T.require_clean(T.run(wd, "MC_Parallel", "mc.cfg", workers=4, timeout=1500), "MC_Parallel")
-    if not res.ok:
-        raise T.MachineryError("Parallel.tla violates its structural invariants:\n" + res.counterexample())
-    return "mc_full " + label(nprocs, crash, pre), res, []
+    invs = "TypeOK LockSound MutexSound" + (" Property" if design else "")
+    T.write_cfg(wd, "mc.cfg", cfg_text("PSpec", proto, nprocs, crash, pre, "INVARIANTS " + invs))
+    res = T.require_clean(T.run(wd, "MC_Parallel", "mc.cfg", workers=workers, timeout=2400), "MC_Parallel")
+    if not res.ok or "Model checking completed" not in res.out:
+        raise T.MachineryError(f"Parallel.tla ({label(proto, nprocs, crash, pre)}) violates "
+                               f"{'the property / ' if design else ''}its structural invariants:\n"
+                               + res.counterexample()[:6000])
+    return ("design " if design else "mc_full ") + label(proto, nprocs, crash, pre), res, []
 
 
 def parse_classes(out):
@@ -89,34 +120,36 @@ def parse_classes(out):
     return found
 
 
-def tlc_classes(ctx, nprocs, crash, pre, workers=1):
+def tlc_classes(ctx, proto, nprocs, crash, pre, workers=1):
     """shortest violating interleaving per <<violated invariants, last step>>"""
     wd = ctx.workdir()
-    T.write_cfg(wd, "k.cfg", cfg_text("CutSpec", nprocs, crash, pre, "INVARIANT NewClass\nALIAS Alias"
+    T.write_cfg(wd, "k.cfg", cfg_text("CutSpec", proto, nprocs, crash, pre, "INVARIANT NewClass\nALIAS Alias"
                                       + ("\nCONSTRAINT StartOrder" if nprocs > 2 else "")))
     res = T.require_clean(T.run(wd, "MC_Parallel", "k.cfg", workers=workers, timeout=3000, extra=("-continue",)),
                           "MC_Parallel")
     if "Model checking completed" not in res.out and not res.finished:
         raise T.MachineryError("MC_Parallel (classes) did not finish:\n" + res.out[-2000:])
-    src = "mc-class " + label(nprocs, crash, pre)
+    src = "mc-class " + label(proto, nprocs, crash, pre)
     best = {}                                    # several workers may each report a class: keep the shortest
     for v, s, ph in parse_classes(res.out):
         k = (tuple(v), s[-1]["a"], ph)
         if k not in best or len(s) < len(best[k][1]):
             best[k] = (v, s)
-    return src, res, [dict(source=src, nprocs=nprocs, predicted=v, schedule=s, cls=list(k[1:]))
+    return src, res, [dict(source=src, nprocs=nprocs, mode=mode_of(proto), predicted=v, schedule=s, cls=list(k[1:]))
                       for k, (v, s) in sorted(best.items())]
 
 
-def tlc_scripts(ctx, nprocs, crash, pre, addrs=None, simulate=None, seed=None):
+def tlc_scripts(ctx, proto, nprocs, crash, pre, addrs=None, simulate=None, seed=None):
     wd = ctx.workdir()
-    T.write_cfg(wd, "s.cfg", cfg_text("SSpec", nprocs, crash, pre, "INVARIANT Emit", addrs=addrs))
+    T.write_cfg(wd, "s.cfg", cfg_text("SSpec", proto, nprocs, crash, pre, "INVARIANT Emit", addrs=addrs))
     res = T.require_clean(T.run(wd, "ParallelScripts", "s.cfg", workers=1, timeout=1500,
                                 simulate=simulate, depth=250 if simulate else None, seed=seed),
                           "ParallelScripts")
-    src = ("simulate " if simulate else "bounded ") + label(nprocs, crash, pre)
-    out = [dict(source=src, nprocs=nprocs, predicted=[], schedule=r[0]) for r in T.printed_records(res, "SCHEDULE")]
-    out += [dict(source=src, nprocs=nprocs, predicted=sorted(r[0]), schedule=r[1])
+    src = ("simulate " if simulate else "bounded ") + label(proto, nprocs, crash, pre)
+    md = mode_of(proto)
+    out = [dict(source=src, nprocs=nprocs, mode=md, predicted=[], schedule=r[0])
+           for r in T.printed_records(res, "SCHEDULE")]
+    out += [dict(source=src, nprocs=nprocs, mode=md, predicted=sorted(r[0]), schedule=r[1])
             for r in T.printed_records(res, "VIOL")]
     out.sort(key=lambda s: json.dumps(s["schedule"]))
     if not out:
@@ -124,7 +157,7 @@ def tlc_scripts(ctx, nprocs, crash, pre, addrs=None, simulate=None, seed=None):
     return src, res, out
 
 
-def random_schedules(ctx, n):
+def random_schedules(ctx, n, mode="run"):
     """extra seed-dependent cases: random interleavings (the gate is whatever the code does next)"""
     out = []
     for _ in range(n):
@@ -132,13 +165,13 @@ def random_schedules(ctx, n):
         procs = ["p1", "p2", "p3"][:k]
         sched = []
         burst = ctx.rng.choice([1, 2, 5])
-        while len(sched) < 40 * k:
+        while len(sched) < (60 if mode == "run" else 20) * k:
             p = ctx.rng.choice(procs)
             for _ in range(ctx.rng.randrange(1, burst + 1)):
                 sched.append(dict(p=p, a=None, c=0))
         if ctx.rng.random() < 0.3:
             sched.insert(ctx.rng.randrange(5, len(sched)), dict(p=ctx.rng.choice(procs), a="crash", c=0))
-        out.append(dict(source="random", nprocs=k, predicted=[], schedule=sched, random=True))
+        out.append(dict(source="random " + mode, nprocs=k, mode=mode, predicted=[], schedule=sched, random=True))
     return out
 
 
@@ -149,8 +182,8 @@ def _replay_chunk(args):
     from harness import parworker
     pool, out = [], []
     try:
-        for k, sched in items:
-            out.append((k, parworker.replay(repo, base, sched, tag=f"s{k}", pool=pool)))
+        for k, sched, mode in items:
+            out.append((k, parworker.replay(repo, base, sched, tag=f"s{k}", pool=pool, mode=mode)))
     finally:
         for w in pool:
             w.stop()
@@ -164,7 +197,7 @@ def replay_schedules(ctx, scheds, controllers=6):
     import ebpfcat.ebpfcat                       # imported before forking: all processes inherit it
     base = os.path.join(T.WORK, f"c23par-{os.getpid()}")
     os.makedirs(base, exist_ok=True)
-    items = list(enumerate(sc["schedule"] for sc in scheds))
+    items = [(k, sc["schedule"], sc.get("mode", "run")) for k, sc in enumerate(scheds)]
     n = max(1, min(controllers, len(items) // 4))
     out = [None] * len(items)
     try:
@@ -190,7 +223,7 @@ def text(ev):
 
 
 # ---- TLC judges ----------------------------------------------------------------------------
-def validate(ctx, traces, spec, chunk=1500):
+def validate(ctx, traces, spec, bare=False, chunk=1500):
     """batched run of ParallelTrace; returns per trace (matched, length, {event: names}, [handle events])"""
     wd = ctx.workdir()
     body = "CONSTRAINT Progress\nPOSTCONDITION Post" + ("\nINVARIANT Observe" if spec == "VSpec" else "")
@@ -200,6 +233,9 @@ CONSTANTS Procs = {{"p1", "p2", "p3"}}
           Addrs = {{1, 2, 3, 4, 9}}
           MaxCrash = 0
           MaxPre = 0
+          Mutex = TRUE
+          LockedInit = TRUE
+          Bare = {TF[bare]}
 {body}
 CHECK_DEADLOCK FALSE
 """)
@@ -207,7 +243,7 @@ CHECK_DEADLOCK FALSE
     for start in range(0, len(traces), chunk):
         part = [dict(ev=[dict(p=e["p"], a=e["a"], c=e["c"], obs=e["obs"], st=e["st"]) for e in t["ev"]])
                 for t in traces[start:start + chunk]]
-        path = os.path.join(wd, f"traces_{spec}_{start}.json")
+        path = os.path.join(wd, f"traces_{spec}_{int(bare)}_{start}.json")
         with open(path, "w") as f:
             json.dump(part, f)
         res = T.run(wd, "ParallelTrace", "t.cfg", workers=1, timeout=1500, deadlock=False,
@@ -291,7 +327,8 @@ def judge(ctx, sc, tr, v, c):
     vm, vlen, verdicts, handle = v
     cm, clen, _, _ = c
     conforms = cm == clen
-    common = dict(source=sc["source"], nprocs=sc["nprocs"], planned=sc["schedule"], predicted=sc["predicted"],
+    common = dict(source=sc["source"], nprocs=sc["nprocs"], mode=sc.get("mode", "run"), planned=sc["schedule"],
+                  predicted=sc["predicted"],
                   conforms_to_model=conforms, exceptions=tr["exc"])
     if tr["hang"] or vm != vlen:
         ctx.case_failed(dict(common, inv="no-verdict", hang=tr["hang"], bound=vm, events=vlen,
@@ -315,44 +352,83 @@ def judge(ctx, sc, tr, v, c):
 
 def run(ctx):
     from concurrent.futures import ThreadPoolExecutor
+    import time
     quick = ctx.quick
-    jobs = [(tlc_mc_full, (ctx, 2, 0, None)),
-            (tlc_mc_full, (ctx, 2, 1, None)),
-            (tlc_classes, (ctx, 2, 0, None)),
-            (tlc_classes, (ctx, 2, 1, None)),
-            (tlc_scripts, (ctx, 2, 0, 1 if quick else 2, "{1, 2, 9}")),
-            (tlc_scripts, (ctx, 2, 1, 1)),
-            (tlc_scripts, (ctx, 3, 0, None, None, "num=%d" % (60 if quick else 800), 23)),
-            (tlc_classes, (ctx, 3, 0, 2 if quick else None, 4))]
+    # (heavy runs first so that they overlap)
+    jobs = [
+        # 1 design verification of the NEW protocol (and of what run() cannot show)
+        (tlc_mc, (ctx, NEW, 3, 0, None, True)),
+        # 2a the windows of the OLD protocols
+        (tlc_classes, (ctx, OLD, 3, 0, 2 if quick else None, 4)),
+        (tlc_classes, (ctx, BARE_OLD, 3, 0 if quick else 1, None, 4)),
+        (tlc_mc, (ctx, BARE_NEW, 3, 1, None, True)),
+        (tlc_mc, (ctx, NEW, 2, 0, None, True, 2)),
+        (tlc_mc, (ctx, NEW, 2, 1, None, True, 2)),
+        (tlc_mc, (ctx, OLDINIT, 2 if quick else 3, 1, None, True, 2 if quick else 4)),
+        (tlc_classes, (ctx, OLD, 2, 0, None)),
+        (tlc_classes, (ctx, NOMUTEX, 2, 0, None)),
+        (tlc_scripts, (ctx, OLD, 2, 0, 1 if quick else 2, "{1, 2, 9}")),
+        (tlc_scripts, (ctx, BARE_OLD, 2, 0, 2)),
+        # 2b behaviours of the NEW protocol
+        (tlc_scripts, (ctx, NEW, 2, 0, 1, None if quick else "{1, 2, 9}")),
+        (tlc_scripts, (ctx, NEW, 2, 1, 0 if quick else 1)),
+        (tlc_scripts, (ctx, NEW, 3, 0, None, None, "num=%d" % (50 if quick else 600), 23)),
+        (tlc_scripts, (ctx, BARE_NEW, 2, 0, 2)),
+        (tlc_scripts, (ctx, BARE_NEW, 3, 0, 0 if quick else 1)),
+        ]
     if not quick:
-        jobs += [(tlc_mc_full, (ctx, 3, 0, None)),
-                 (tlc_classes, (ctx, 3, 1, 2, 4)),
-                 (tlc_scripts, (ctx, 3, 1, None, None, "num=300", 24))]
-    with ThreadPoolExecutor(max_workers=8 if quick else 4) as ex:
+        jobs = [(tlc_mc, (ctx, NEW, 3, 1, None, True)),
+                (tlc_classes, (ctx, OLD, 2, 1, None)),
+                (tlc_scripts, (ctx, BARE_NEW, 3, 1, None, None, "num=300", 25)),
+                (tlc_classes, (ctx, NOMUTEX, 3, 0, 2, 4)),
+                (tlc_classes, (ctx, OLD, 3, 1, 2, 4))] + jobs + [
+                (tlc_mc, (ctx, OLD, 2, 0, None, False)),
+                (tlc_scripts, (ctx, NEW, 3, 1, None, None, "num=300", 24))]
+    with ThreadPoolExecutor(max_workers=8 if quick else 5) as ex:
         done = [f.result() for f in [ex.submit(f, *a) for f, a in jobs]]
     scheds = []
+    design = {}
     for name, res, found in done:
         ctx.tlc_stats(res)
-        ctx.extra[name] = dict(distinct=res.distinct, generated=res.generated, schedules=len(found), wall=round(res.wall, 1))
+        info = dict(distinct=res.distinct, generated=res.generated, wall=round(res.wall, 1))
+        if name.startswith("design") or name.startswith("mc_full"):
+            info.update(diameter=depth_of(res), holds=True)
+            design[name] = info
+            continue
+        info["schedules"] = len(found)
+        ctx.extra[name] = info
         if name.startswith("bounded"):          # keep every predicted violation, stride the others
-            stride = (16 if "crash" in name else 1) if quick else (3 if "crash" in name else 2)
-            found = [s for s in found if s["predicted"]] + [s for s in found if not s["predicted"]][::stride]
+            keep = [s for s in found if s["predicted"]]
+            rest = [s for s in found if not s["predicted"]]
+            limit = (50 if "old" in name else 60 if "3p" in name else 100) if quick else \
+                (300 if "old" in name else 700)
+            found = keep[::max(1, len(keep) // (40 if quick else 200))] + rest[::max(1, -(-len(rest) // limit))]
+            info["replayed"] = len(found)
         scheds += found
-    scheds += random_schedules(ctx, 25 if quick else 200)
-    import time
+    ctx.extra["design_verification"] = design
+    scheds += random_schedules(ctx, 15 if quick else 150) + random_schedules(ctx, 8 if quick else 60, "fmmu")
     t0 = time.time()
     traces = replay_schedules(ctx, scheds)
     ctx.extra["replay_wall"] = round(time.time() - t0, 1)
-    with ThreadPoolExecutor(max_workers=2) as ex:
-        fv = ex.submit(validate, ctx, traces, "VSpec")
-        fc = ex.submit(validate, ctx, traces, "CSpec")
-        rv, rc = fv.result(), fc.result()
-    conform = 0
+    idx = {False: [i for i, sc in enumerate(scheds) if sc.get("mode", "run") == "run"],
+           True: [i for i, sc in enumerate(scheds) if sc.get("mode") == "fmmu"]}
+    rv, rc = [None] * len(scheds), [None] * len(scheds)
+    with ThreadPoolExecutor(max_workers=4) as ex:
+        futs = [(spec, bare, ex.submit(validate, ctx, [traces[i] for i in idx[bare]], spec, bare))
+                for spec in ("VSpec", "CSpec") for bare in (False, True) if idx[bare]]
+        for spec, bare, f in futs:
+            for i, r in zip(idx[bare], f.result()):
+                (rv if spec == "VSpec" else rc)[i] = r
+    conform = {"run": [0, 0], "fmmu": [0, 0]}
     handle_only = 0
+    blocked = 0
     nonconf = []
     for sc, tr, v, c in zip(scheds, traces, rv, rc):
         ok = judge(ctx, sc, tr, v, c)
-        conform += ok
+        md = sc.get("mode", "run")
+        conform[md][0] += ok
+        conform[md][1] += 1
+        blocked += tr.get("blocked", 0)
         if not ok and len(nonconf) < 5:
             ev = tr["ev"]
             nonconf.append(dict(source=sc["source"], at=c[0], event=executed(ev)[c[0]] if c[0] < len(ev) else None,
@@ -360,9 +436,7 @@ def run(ctx):
         if v[3] and not v[2]:
             handle_only += 1
     predicted = [i for i, sc in enumerate(scheds) if sc["predicted"]]
-    unconfirmed = [i for i in predicted
-                   if not any(set(n) & set(scheds[i]["predicted"]) for n in rv[i][2].values())]
-    confirmed = len(predicted) - len(unconfirmed)
+    reopened = [i for i in predicted if any(set(n) & set(scheds[i]["predicted"]) for n in rv[i][2].values())]
     tally = {}
     unexplained = []
     for case, reason in ctx.failures:
@@ -371,41 +445,52 @@ def run(ctx):
         tally[key] = tally.get(key, 0) + 1
         if not names and len(unexplained) < 3:
             unexplained.append(reason[:700])
-    ctx.extra.update(failure_tally=tally, unexplained_samples=unexplained,
-                     unconfirmed_predictions=[dict(source=scheds[i]["source"], predicted=scheds[i]["predicted"],
-                                                   planned=text(scheds[i]["schedule"]), run=text(traces[i]["ev"]),
-                                                   verdicts=rv[i][2]) for i in unconfirmed[:3]])
-    print("C23 failures by class:", json.dumps(tally, sort_keys=True))
-    ctx.extra.update(schedules=len(scheds), model_conformance=dict(conforming=conform, total=len(scheds)),
-                     nonconforming_samples=nonconf,
-                     predicted_violations=dict(schedules=len(predicted), confirmed_on_real_code=confirmed),
-                     stale_handle_without_violation=handle_only,
-                     participants_ending_with_exception=sum(1 for t in traces if t["exc"]))
+    total = sum(v[1] for v in conform.values())
+    good = sum(v[0] for v in conform.values())
+    by_source = {}
+    for case, _ in ctx.failures:
+        by_source[case.get("source", "?")] = by_source.get(case.get("source", "?"), 0) + 1
+    ctx.extra.update(
+        schedules=len(scheds), schedules_run=len(idx[False]), schedules_bare_fmmu=len(idx[True]),
+        model_conformance=dict(conforming=good, total=total, percent=round(100.0 * good / max(1, total), 2),
+                               run=conform["run"], bare_fmmu=conform["fmmu"]),
+        nonconforming_samples=nonconf,
+        old_protocol_windows=dict(schedules=len(predicted), reopened_on_this_code=len(reopened)),
+        steps_blocked_in_flock_or_lockf=blocked, failure_tally=tally, failures_by_source=by_source,
+        unexplained_samples=unexplained, stale_handle_without_violation=handle_only,
+        participants_ending_with_exception=sum(1 for t in traces if t["exc"]))
+    print("C23 design:", json.dumps({k: [v["distinct"], v["diameter"]] for k, v in design.items()}))
+    print(f"C23 conformance: {good}/{total}; old-protocol windows replayed: {len(predicted)}, "
+          f"reopened: {len(reopened)}; failures by class:", json.dumps(tally, sort_keys=True))
     ctx.sample(dict(schedule=text(traces[0]["ev"]), exceptions=traces[0]["exc"]))
     for i in predicted[:2]:
-        ctx.sample(dict(source=scheds[i]["source"], predicted=scheds[i]["predicted"], run=text(traces[i]["ev"])))
+        ctx.sample(dict(source=scheds[i]["source"], window_of=scheds[i]["predicted"], run=text(traces[i]["ev"])))
     ctx.exhaustive = False
-    ctx.rule = ("one case = one schedule replayed on the real ParallelEtherCat.run()/LockFile/FMMULock in real "
-                "processes and judged by TLC: the shortest model counterexample per <<violated invariants, last "
-                "step, phase>> (2 participants: all interleavings, also with one crash; 3 participants: <= 2 "
-                "preemptions in quick, all interleavings in thorough, with a crash <= 2 preemptions), every "
-                "behaviour of 2 participants with <= 1 preemption (thorough: <= 2, every predicted violation and "
-                "every 2nd of the others), with one crash <= 1 preemption (every 16th / 3rd of the non-violating), "
-                "random 3-participant behaviours (-simulate, fixed seed), seeded random interleavings; "
-                "non-trivial = the steps of at least two participants interleave")
+    ctx.rule = ("one case = one schedule replayed on the real ParallelEtherCat.run()/LockFile/FMMULock (bare part: "
+                "the real FMMULock alone) in real processes and judged by TLC: (a) from the OLD protocols the "
+                "shortest model counterexample per <<violated invariants, last step, phase>> (2 participants all "
+                "interleavings, also with a crash and with only the mutex missing; 3 participants <= 2 preemptions "
+                "in quick, all in thorough; bare FMMULock 3 participants with a crash) and the violating behaviours "
+                "with <= 1 (thorough 2) preemptions; (b) from the NEW protocol every behaviour of 2 participants "
+                "with <= 1 (thorough 2) preemptions, with one crash <= 1 (strided to the stated limits), random "
+                "3-participant behaviours (-simulate, fixed seed), bounded and simulated behaviours of 3 bare "
+                "FMMULock users, seeded random interleavings; non-trivial = the steps of at least two participants "
+                "interleave")
     ctx.assumptions += [
-        "file-system semantics (rename onto an empty directory, rmdir, O_EXCL, lockf) are those of the sandbox "
-        "kernel on the private directory; bpf map/pin/get and XDP attach/detach are recorders with the kernel's "
-        "documented semantics (pin: EEXIST, get: ENOENT, attach replaces, detach removes whatever is attached)",
-        "interleaving granularity is the system call; local steps between two gated calls are atomic"]
+        "file-system semantics (rename onto an empty directory, rmdir, O_EXCL, lockf, flock) are those of the "
+        "sandbox kernel on the private directory; bpf map/pin/get and XDP attach/detach are recorders with the "
+        "kernel's documented semantics (pin: EEXIST, get: ENOENT, attach replaces, detach removes whatever is attached)",
+        "interleaving granularity is the system call; local steps between two gated calls are atomic",
+        "the design verification is exhaustive for the stated numbers of participants and one crash; the replay "
+        "shows the real code follows the verified protocol on the replayed schedules (conformance percentage)"]
 
 
 def replay(ctx, case):
-    sc = dict(source=case.get("source", "replay"), nprocs=case.get("nprocs", 3),
+    sc = dict(source=case.get("source", "replay"), nprocs=case.get("nprocs", 3), mode=case.get("mode", "run"),
               predicted=case.get("predicted", []), schedule=case["planned"])
     tr = replay_schedules(ctx, [sc])[0]
-    v = validate(ctx, [tr], "VSpec")[0]
-    c = validate(ctx, [tr], "CSpec")[0]
+    v = validate(ctx, [tr], "VSpec", sc["mode"] == "fmmu")[0]
+    c = validate(ctx, [tr], "CSpec", sc["mode"] == "fmmu")[0]
     for k, e in enumerate(tr["ev"], start=1):
         print(f"  {k:3} {e['p']}.{e['a']} c={e['c']} res={e.get('res')} -> lockdir={e['obs']['lockdir']} "
               f"pin={e['obs']['pin']} att={e['obs']['att']} fm={e['obs']['fm']} "
